@@ -1,5 +1,6 @@
 import Crng.Ordered
 import Crng.Table
+import Crng.Fnv
 /-! # C19 — order validation accepts a point only if it is newer than all accepted before
 `Crng/Ordered.lean` is `validate.Ordered` (a map from the name's hash to the newest accepted timestamp; the whole body
 runs under one mutex — regenerated fact — so every concurrent execution is a sequential history in lock order). -/
@@ -64,6 +65,35 @@ theorem not_newer_rejected (hash : Bytes → Nat) (m : M) (key : Bytes) (ts : Na
 
 /-- the hypothesis is needed: with a hash collision a newer point of one name is rejected because of another name -/
 theorem collision_counterexample : run (fun _ => 0) [] [([1], 10), ([2], 5)] = [true, false] := by decide
+
+/-- the counterexample in general: whatever the hash, if two different names collide then the second one's first point — a
+name never seen, positive timestamp — is rejected whenever its timestamp is not above the first name's. So the property as
+stated holds for a history iff the hash is injective on its names; nothing weaker will do. -/
+theorem collision_breaks_newer_positive (hash : Bytes → Nat) (a b : Bytes) (hcol : hash a = hash b) (t1 t2 : Nat)
+    (h1 : 0 < t2) (h2 : t2 ≤ t1) : run hash [] [(a, t1), (b, t2)] = [true, false] := by
+  have ht1 : 0 < t1 := by omega
+  simp only [run]
+  have ha : ordered hash [] a t1 = (set [] (hash a) t1, true) := by
+    unfold ordered; simp [Crng.Ord.get, ht1]
+  rw [ha]
+  have hb : (ordered hash (set [] (hash a) t1) b t2).2 = false := by
+    unfold ordered; rw [← hcol, get_set_same]
+    have : ¬ t2 > t1 := by omega
+    simp [this]
+  simp [hb]
+
+/-- … and the digest the code uses does collide: two pairs of 20-character names with equal FNV-1a 64 digests (kernel-evaluated;
+the Lean definition of the digest is compared with Go's `hash/fnv` on every run) -/
+theorem fnv_collision_1 : Crng.Fnv.fnv1a64 Crng.Fnv.pair1a = Crng.Fnv.fnv1a64 Crng.Fnv.pair1b ∧ Crng.Fnv.pair1a ≠ Crng.Fnv.pair1b := by
+  decide +kernel
+theorem fnv_collision_2 : Crng.Fnv.fnv1a64 Crng.Fnv.pair2a = Crng.Fnv.fnv1a64 Crng.Fnv.pair2b ∧ Crng.Fnv.pair2a ≠ Crng.Fnv.pair2b := by
+  decide +kernel
+
+/-- hence the model of `validate.Ordered` *with the digest the code uses* violates the property on a concrete history: the
+known finding C19-fnv-collision, replayed on the real table by stream `ordered-hash-collision` -/
+theorem fnv_history_violates :
+    run Crng.Fnv.fnv1a64 [] [(Crng.Fnv.pair1a, 1500000100), (Crng.Fnv.pair1b, 1500000050)] = [true, false] :=
+  collision_breaks_newer_positive _ _ _ fnv_collision_1.1 _ _ (by decide) (by decide)
 
 /-- non-vacuity: interleaved names, repeated and decreasing timestamps -/
 example : accepted (fun b => b.foldl (fun a c => a * 256 + c.toNat) 0) [1] []
